@@ -8,6 +8,7 @@ set -u
 VERIF_DIR="$(cd "$(dirname "${BASH_SOURCE[0]}")/.." && pwd)"
 export VERIF_DIR
 export GOFLAGS=-mod=mod GOPROXY=off GOSUMDB=off GOTOOLCHAIN=local GONOSUMDB='*'
+CALLER_PWD="$PWD"
 cd "$VERIF_DIR/sim" || exit 2
 GO=go1.26.8
 command -v $GO >/dev/null 2>&1 || GO=go
@@ -23,7 +24,10 @@ rm -f "$VERIF_DIR/.build/simctl-build.$$.log"
 trap 'rm -f "$VERIF_DIR/.build/simctl.$$"' EXIT
 case "${1:-}" in
   setup) exit 0 ;;
-  replay) "$VERIF_DIR/.build/simctl.$$" replay "$2"; exit $? ;;
+  replay)
+    RP="${2:-}"
+    case "$RP" in /*) ;; *) if [ -e "$CALLER_PWD/$RP" ]; then RP="$CALLER_PWD/$RP"; else RP="$VERIF_DIR/$RP"; fi ;; esac
+    "$VERIF_DIR/.build/simctl.$$" replay "$RP"; exit $? ;;
   selftest) shift; "$VERIF_DIR/.build/simctl.$$" selftest "$@"; exit $? ;;
   "") echo "usage: $0 <property-id> <quick|thorough> | replay <file> | selftest determinism [ids]" >&2; exit 2 ;;
   *) "$VERIF_DIR/.build/simctl.$$" check "$1" "${2:-quick}"; exit $? ;;
